@@ -280,7 +280,13 @@ def run_history(fam, kind, rng, rec, h, pal):
                         cn_.commit()
                     rec.ev('stored:commit')
                 except Exception:
-                    conns = None
+                    # an unpicklable hostile value (memoryview, ...) was
+                    # stored: the commit broke off half-way, after oids had
+                    # been handed to some of the new nodes - in a different
+                    # order in the two implementations.  Nothing after this
+                    # point is comparable.
+                    rec.ev('stored:commit-failed-history-cut')
+                    return
                 if conns is not None and is_tree and (
                         minidb.embedded_but_leaf_has_oid(conns['c'], c) or
                         minidb.embedded_but_leaf_has_oid(conns['py'], p)):
